@@ -385,7 +385,12 @@ class MAMixin(object):
             m = self.arr_state(st, mask)
             base_miss = s.miss if s.kind == "MA" else (lambda c: z3.BoolVal(False))
             miss = lambda c, m=m: z3.Or(base_miss(c), m.val(c) != 0)
-        out = ArrState("MA", d, s.shape, s.val, miss)
+        val = s.val
+        if "dtype" in kw and not (z3.is_const(d) and z3.is_const(s.dtype) and d.eq(s.dtype)):
+            # a cast from float to int truncates toward zero (numpy astype); every other cast among {int, float} keeps the number
+            val = lambda c, s=s, d=d: z3.If(z3.And(d == INT, s.dtype == FLT),
+                                            z3.If(s.val(c) >= 0, z3.ToReal(z3.ToInt(s.val(c))), -z3.ToReal(z3.ToInt(-s.val(c)))), s.val(c))
+        out = ArrState("MA", d, s.shape, val, miss)
         cp = kw.get("copy")
         if cp is not True and isinstance(v, Ref) and not st.is_fresh(v):
             out.shares = v
